@@ -162,7 +162,8 @@ def bad2(a: INT64) -> INT64:
 # alphabet of operations (names are the ones spec/History.tla uses)
 OPS = [
     "TrCtl", "TrGlob", "TrBad1", "TrBad2", "ProtoGlob", "MutGlob", "ProtoOuter17", "ProtoOuter19",
-    "OptOld", "OptNew", "OptA", "OptB", "OptRaise", "RwX", "RwY", "RwCheckRaise", "RwRewriteRaise",
+    "OptOld", "OptNew", "OptA", "OptB", "OptRaise", "RwX", "RwY", "RwZ", "RwW", "RoX", "RoY", "RoZ", "RoW", "RwAsFunc",
+    "RwCheckRaise", "RwRewriteRaise",
     "FoldA", "FoldNoop", "FoldRaise", "PatOk", "PatFree", "PatRaiseDefault", "PatRaiseCustom", "PmMatch",
     "ConvA", "ConvRaise", "ModBuild", "EvRaise",
 ]
@@ -208,11 +209,11 @@ def preimport():
 
 
 # ------------------------------------------------------------------------------------------ models
-def _mk(nodes, ins, outs, inits=(), vis=(), opset=18):
+def _mk(nodes, ins, outs, inits=(), vis=(), opset=18, extra_imports=()):
     from onnx import helper as oh
 
     g = oh.make_graph(list(nodes), "g", list(ins), list(outs), list(inits), value_info=list(vis))
-    return oh.make_model(g, opset_imports=[oh.make_opsetid("", opset)], ir_version=10)
+    return oh.make_model(g, opset_imports=[oh.make_opsetid("", opset)] + [oh.make_opsetid(d, v) for d, v in extra_imports], ir_version=10)
 
 
 def _vi(name, shape, dt=1):
@@ -395,6 +396,186 @@ def model_Y():
     )
 
 
+class _Parts:
+    """composable sub-graphs for the rule catalogue: every shipped rule class that keeps fields between check() and
+    rewrite() gets matches that are accepted (with different values), refused BEFORE the fields are assigned, and
+    refused AFTER they were assigned"""
+
+    def __init__(self):
+        self.nodes, self.ins, self.outs, self.inits, self.vis = [], [], [], [], []
+
+    def model(self):
+        return _mk(self.nodes, self.ins, self.outs, self.inits, self.vis, opset=23, extra_imports=[("com.microsoft", 1)])
+
+    def rms(self, p, dt, order, eps, cast=False):
+        """RMS normalisation of a [4,4] input of onnx dtype dt; order 1: Mul(normalized, scale), 2: Mul(scale, normalized);
+        cast: computed in FLOAT around Casts (compute_dtype bound)"""
+        import numpy as np
+        from onnx import helper as oh
+
+        npdt = {1: np.float32, 10: np.float16, 11: np.float64}
+        cdt = 1 if cast else dt
+        N = self.nodes
+        x = p + "x"
+        self.ins += [_vi(x, [4, 4], dt)]
+        self.inits += [_init(p + "two", np.array(2.0, npdt[cdt])), _init(p + "ax", np.array([-1], np.int64)),
+                       _init(p + "eps", np.array(eps, npdt[cdt])), _init(p + "scale", np.array([1, 2, 3, 4], npdt[dt]))]
+        xin = x
+        if cast:
+            N.append(oh.make_node("Cast", [x], [p + "xc"], to=1))
+            xin = p + "xc"
+            self.vis.append(_vi(xin, [4, 4], 1))
+        N += [oh.make_node("Pow", [xin, p + "two"], [p + "sq"]),
+              oh.make_node("ReduceMean", [p + "sq", p + "ax"], [p + "ms"], keepdims=1, noop_with_empty_axes=0),
+              oh.make_node("Add", [p + "ms", p + "eps"], [p + "mse"]),
+              oh.make_node("Sqrt", [p + "mse"], [p + "rms"]),
+              oh.make_node("Reciprocal", [p + "rms"], [p + "rr"]),
+              oh.make_node("Mul", [xin, p + "rr"], [p + "n"])]
+        self.vis += [_vi(p + "sq", [4, 4], cdt), _vi(p + "n", [4, 4], cdt)] + [_vi(p + k, [4, 1], cdt) for k in ("ms", "mse", "rms", "rr")]
+        nrm = p + "n"
+        if cast:
+            N.append(oh.make_node("Cast", [nrm], [p + "nc"], to=dt))
+            nrm = p + "nc"
+            self.vis.append(_vi(nrm, [4, 4], dt))
+        N.append(oh.make_node("Mul", [nrm, p + "scale"] if order == 1 else [p + "scale", nrm], [p + "out"]))
+        self.outs.append(_vi(p + "out", [4, 4], dt))
+
+    def ln(self, p, dt, variant, eps, eps_const=True):
+        """layer normalisation; variant 1: Mul(d,d) / Reciprocal, 2: Pow(d,2) / Div"""
+        import numpy as np
+        from onnx import helper as oh
+
+        npdt = {1: np.float32, 10: np.float16, 11: np.float64}[dt]
+        N = self.nodes
+        h = p + "h"
+        self.ins.append(_vi(h, [4, 4], dt))
+        self.inits += [_init(p + "ax", np.array([-1], np.int64)), _init(p + "scale", np.array([4, 3, 2, 1], npdt)), _init(p + "two", np.array(2.0, npdt))]
+        if eps_const:
+            self.inits.append(_init(p + "eps", np.array(eps, npdt)))
+        else:
+            self.ins.append(_vi(p + "eps", [], dt))
+        N += [oh.make_node("ReduceMean", [h, p + "ax"], [p + "mean"], keepdims=1),
+              oh.make_node("Sub", [h, p + "mean"], [p + "d"]),
+              oh.make_node("Mul", [p + "d", p + "d"], [p + "dd"]) if variant == 1 else oh.make_node("Pow", [p + "d", p + "two"], [p + "dd"]),
+              oh.make_node("ReduceMean", [p + "dd", p + "ax"], [p + "var"], keepdims=1),
+              oh.make_node("Add", [p + "var", p + "eps"], [p + "ve"]),
+              oh.make_node("Sqrt", [p + "ve"], [p + "sd"])]
+        if variant == 1:
+            N += [oh.make_node("Reciprocal", [p + "sd"], [p + "isd"]), oh.make_node("Mul", [p + "d", p + "isd"], [p + "ln"])]
+        else:
+            N.append(oh.make_node("Div", [p + "d", p + "sd"], [p + "ln"]))
+        N.append(oh.make_node("Mul", [p + "ln", p + "scale"], [p + "out"]))
+        self.vis += [_vi(p + k, [4, 4], dt) for k in ("d", "dd", "ln")] + [_vi(p + k, [4, 1], dt) for k in ("mean", "var", "ve", "sd")]
+        self.outs.append(_vi(p + "out", [4, 4], dt))
+
+    def reshape2(self, p, shape1, shape2, const2=True, allowzero=None, out_shape=None):
+        import numpy as np
+        from onnx import helper as oh
+
+        self.ins.append(_vi(p + "x", [4, 6]))
+        self.inits.append(_init(p + "s1", np.array(shape1, np.int64)))
+        if const2:
+            self.inits.append(_init(p + "s2", np.array(shape2, np.int64)))
+        else:
+            self.ins.append(_vi(p + "s2", [len(shape2)], 7))
+        self.nodes += [oh.make_node("Reshape", [p + "x", p + "s1"], [p + "r1"]),
+                       oh.make_node("Reshape", [p + "r1", p + "s2"], [p + "r2"], **({"allowzero": allowzero} if allowzero is not None else {}))]
+        self.vis.append(_vi(p + "r1", shape1))
+        self.outs.append(_vi(p + "r2", out_shape or [p + "A", p + "B"]))
+
+    def padconv(self, p, pads, mode="constant", auto_pad=None):
+        import numpy as np
+        from onnx import helper as oh
+
+        self.ins.append(_vi(p + "img", [1, 2, 5, 5]))
+        self.inits += [_init(p + "pads", np.array(pads, np.int64)), _init(p + "w", np.ones((3, 2, 3, 3), np.float32))]
+        self.nodes += [oh.make_node("Pad", [p + "img", p + "pads"], [p + "p"], mode=mode),
+                       oh.make_node("Conv", [p + "p", p + "w"], [p + "c"], **({"auto_pad": auto_pad} if auto_pad else {}))]
+        self.outs.append(_vi(p + "c", [p + "A", p + "B", p + "C", p + "D"]))
+
+    def mha(self, p, scale, num_heads=2):
+        """Mul(query, scale) -> com.microsoft MultiHeadAttention (FuseMHAScale); scale None: not a constant"""
+        import numpy as np
+        from onnx import helper as oh
+
+        self.ins += [_vi(p + "q", [1, 4, 8]), _vi(p + "k", [1, 4, 8]), _vi(p + "v", [1, 4, 8])]
+        if scale is None:
+            self.ins.append(_vi(p + "scale", []))
+        else:
+            self.inits.append(_init(p + "scale", np.array(scale, np.float32)))
+        self.nodes += [oh.make_node("Mul", [p + "q", p + "scale"], [p + "qs"]),
+                       oh.make_node("MultiHeadAttention", [p + "qs", p + "k", p + "v"], [p + "o"], domain="com.microsoft", num_heads=num_heads)]
+        self.vis.append(_vi(p + "qs", [1, 4, 8]))
+        self.outs.append(_vi(p + "o", [1, 4, 8]))
+
+    def extractdim(self, p, start, end, const_start=True):
+        """Slice(Shape(Transpose(Reshape(x, Concat(d0..d3), allowzero=1)))) (ort_fusions ExtractDim)"""
+        import numpy as np
+        from onnx import helper as oh
+
+        self.ins += [_vi(p + "x", [p + "N"])] + [_vi(p + f"d{i}", [1], 7) for i in range(4)]
+        if const_start:
+            self.inits.append(_init(p + "st", np.array([start], np.int64)))
+        else:
+            self.ins.append(_vi(p + "st", [1], 7))
+        self.inits.append(_init(p + "en", np.array([end], np.int64)))
+        self.nodes += [oh.make_node("Concat", [p + f"d{i}" for i in range(4)], [p + "shape"], axis=0),
+                       oh.make_node("Reshape", [p + "x", p + "shape"], [p + "r"], allowzero=1),
+                       oh.make_node("Transpose", [p + "r"], [p + "t"], perm=[0, 2, 1, 3]),
+                       oh.make_node("Shape", [p + "t"], [p + "fs"]),
+                       oh.make_node("Slice", [p + "fs", p + "st", p + "en"], [p + "dim"])]
+        self.outs.append(_vi(p + "dim", [p + "K"], 7))
+
+
+def model_W():
+    """further ACCEPTED matches with other values: RMS norm in float16 around Casts (compute_dtype bound), float32 in the other
+    operand order, layer norm (Pow/Div form), ReshapeReshape, Pad+Conv, MHA scale, ExtractDim"""
+    m = _Parts()
+    m.rms("a_", 10, 1, 0.125, cast=True)
+    m.rms("b_", 1, 2, 0.75)
+    m.rms("c_", 11, 1, 0.0625)
+    m.ln("d_", 1, 2, 0.125)
+    m.reshape2("e_", [3, 8], [12, 2], out_shape=[12, 2])
+    m.padconv("f_", [0, 0, 2, 1, 0, 0, 1, 2])
+    m.mha("g_", 0.5)
+    m.extractdim("h_", 1, 2)
+    return m.model()
+
+
+def model_Z():
+    """matches that are REFUSED: where check() takes a branch that does not (re)assign the fields, or assigns them and then
+    refuses - float16 RMS norm / layer norm without Casts, non-constant epsilon / shape / scale / slice start, reflect padding,
+    auto_pad - preceded by one accepted match of the rules that take part in other models too"""
+    m = _Parts()
+    m.rms("a_", 10, 1, 0.25)                    # float16, no Cast: precision refused (both operand orders)
+    m.rms("b_", 10, 2, 0.25)
+    m.ln("c_", 10, 1, 0.5)                      # float16: refused before any field is assigned
+    m.ln("d_", 1, 1, 0.5, eps_const=False)      # epsilon is a graph input: refused between the two assignments
+    m.reshape2("e_", [3, 8], [6, 4], const2=False)          # second shape not constant: refused before assigning
+    m.reshape2("f_", [2, 12], [0, -1])                      # 0 and -1: refused after assigning
+    m.padconv("g_", [0, 0, 1, 1, 0, 0, 1, 1], mode="reflect")          # refused before assigning
+    m.padconv("h_", [0, 0, 1, 1, 0, 0, 1, 1], auto_pad="SAME_UPPER")   # refused after assigning
+    m.padconv("i_", [0, 1, 0, 0, 0, 1, 0, 0])                          # channel padding: assigned, reset to None, refused
+    m.mha("j_", 0.25, num_heads=4)              # accepted, other value
+    m.mha("k_", None)                           # scale not constant: refused before assigning
+    m.extractdim("l_", 0, 2)                    # accepted, other slice
+    m.extractdim("m_", 0, 2, const_start=False)  # start not constant: assigned (None) and refused
+    return m.model()
+
+
+def model_multidomain():
+    """a chain of nodes from five domains, extracted into a model-local function by an as_function rule"""
+    from onnx import helper as oh
+
+    nodes = [oh.make_node("Gelu", ["x"], ["t1"], domain="com.microsoft"),
+             oh.make_node("Relu", ["t1"], ["t2"]),
+             oh.make_node("Scale", ["t2"], ["t3"], domain="ai.onnx.contrib"),
+             oh.make_node("Foo", ["t3"], ["t4"], domain="c14.d1"),
+             oh.make_node("Bar", ["t4"], ["y"], domain="c14.d2")]
+    return _mk(nodes, [_vi("x", [4, 8])], [_vi("y", [4, 8])], opset=18,
+               extra_imports=[("com.microsoft", 1), ("ai.onnx.contrib", 1), ("c14.d1", 1), ("c14.d2", 1)])
+
+
 def model_poison(kind):
     """a ReshapeReshape match, then the harness' poison node (raises in check() or in rewrite()), then
     another ReshapeReshape match that is never reached"""
@@ -508,6 +689,9 @@ def make_singletons(P: _Proc):
     from onnxscript.rewriter import pattern
     from onnxscript.rewriter.rules.common import _basic_rules, _fuse_pad_into_conv, _materialize_reshape_shape
     from onnxscript.rewriter.rules.fusion import _layer_norm, _rms_normalization
+    from onnxscript.rewriter.ort_fusions import mha_scale as _ort_mha_scale
+    from onnxscript.rewriter.ort_fusions import rms_normalization as _ort_rms
+    from onnxscript.rewriter.ort_fusions import shape_optimization as _ort_shape
     from onnxscript.version_converter import ConvertVersionPass
 
     class PoisonCheck(pattern.RewriteRuleClassBase):
@@ -577,8 +761,25 @@ def make_singletons(P: _Proc):
         ("RmsNormFusion2", _rms_normalization._rule2),
         ("LayerNormFusion", _layer_norm._layer_norm_rule),
     ]
-    S["tracked_rules"] = tracked_rules
     S["RS_H"] = pattern.RewriteRuleSet([r for _, r in tracked_rules])
+    ort_rules = [
+        ("OrtRmsNormFusion1", _ort_rms._rule1),
+        ("OrtRmsNormFusion2", _ort_rms._rule2),
+        ("OrtFuseMHAScale", _ort_mha_scale._mha_scale_rules.rules[0]),
+        ("OrtExtractDim", _ort_shape.rules.rules[0]),
+    ]
+    S["RS_O"] = pattern.RewriteRuleSet([r for _, r in ort_rules])
+    tracked_rules = tracked_rules + ort_rules
+    S["tracked_rules"] = tracked_rules
+
+    def chain(op, x):
+        t = op.Gelu(x, _domain="com.microsoft")
+        t = op.Relu(t)
+        t = op.Scale(t, _domain="ai.onnx.contrib")
+        t = op.Foo(t, _domain="c14.d1")
+        return op.Bar(t, _domain="c14.d2")
+
+    S["RS_F"] = pattern.RewriteRuleSet([pattern.RewriteRule(chain, lambda op, x: op.Chain(x, _domain="c14.fused"), as_function=True)])
     S["FOLD"] = _constant_folding.FoldConstantsPass(
         shape_inference=True,
         input_size_limit=_constant_folding.DEFAULT_CONSTANT_FOLD_INPUT_SIZE_LIMIT,
@@ -756,6 +957,46 @@ def op_RwX(P):
 
 def op_RwY(P):
     return _rw(P, model_Y())
+
+
+def op_RwZ(P):
+    return _rw(P, model_Z())
+
+
+def op_RwW(P):
+    return _rw(P, model_W())
+
+
+def _ro(P, model):
+    """the shipped onnxruntime fusion rule objects that keep fields between check() and rewrite()"""
+    import onnxscript.rewriter
+
+    return _ser(onnxscript.rewriter.rewrite(model, pattern_rewrite_rules=P.singletons["RS_O"]))
+
+
+def op_RoX(P):
+    return _ro(P, model_X())
+
+
+def op_RoY(P):
+    return _ro(P, model_Y())
+
+
+def op_RoZ(P):
+    return _ro(P, model_Z())
+
+
+def op_RoW(P):
+    return _ro(P, model_W())
+
+
+def op_RwAsFunc(P):
+    """rewrite with an as_function rule over a match whose nodes come from five domains: the extracted function's
+    opset imports are a filtered copy of the parent's (ordered) imports, not an iteration over the set of used domains"""
+    import onnxscript.rewriter
+
+    _ev(P, "listset", "as_function")
+    return _ser(onnxscript.rewriter.rewrite(model_multidomain(), pattern_rewrite_rules=P.singletons["RS_F"]))
 
 
 def op_RwCheckRaise(P):
@@ -1469,7 +1710,7 @@ def run(ctx: core.Ctx):
     def solo_recorded(_):
         return run_interpreter(0, [[op] for op in OPS], fork=True, instrument_=True, par=4)
 
-    fresh_jobs = [(0, op) for op in OPS] + [(s, op) for s in seeds[1:] for op in ("TrCtl", "TrGlob", "OptB")]
+    fresh_jobs = [(0, op) for op in OPS] + [(s, op) for s in seeds[1:] for op in ("TrCtl", "TrGlob", "OptB", "RwAsFunc")]
     from concurrent.futures import ThreadPoolExecutor
 
     with ThreadPoolExecutor(max_workers=core.NCPU + 2) as ex:
@@ -1515,7 +1756,7 @@ def run(ctx: core.Ctx):
     ctx.set("catalogue_events", {op: len(evs) for op, evs in cat.items()})
 
     # ---- (3) TLC on the recorded catalogue: histories, predictions, state after every call
-    runs = [("History_pairs.cfg", None, None)]
+    runs = [("History_pairs.cfg", None, None), ("History_rules.cfg", None, None)]
     if ctx.quick:
         runs += [("History_quick.cfg", None, None), ("History_sim.cfg", "num=30", 400)]
     else:
@@ -1526,7 +1767,7 @@ def run(ctx: core.Ctx):
         return tlc_cases(ctx, cfg, cfg, catfile, simulate=sim, depth=depth, workers=("auto" if not ctx.quick else 6))
 
     t1 = time.time()
-    tl = _threads(do_tlc, runs, 3 if ctx.quick else 1)
+    tl = _threads(do_tlc, runs, 4 if ctx.quick else 1)
     phases["tlc_recorded"] = round(time.time() - t1, 1)
     cases_by = {}
     for (cfg, sim, _), (res, cases) in zip(runs, tl):
@@ -1566,7 +1807,10 @@ def run(ctx: core.Ctx):
             selected += [(c, "two") for c in cs]
             continue
         rng.shuffle(cs)
-        if ctx.quick:
+        if cfg == "History_rules.cfg":
+            if ctx.quick:       # all orders of three over the rule catalogue: the ones with most state flowing between the calls first
+                cs = sorted(cs, key=flows, reverse=True)[:450] + rng.sample(cs, 150)
+        elif ctx.quick:
             devs = [c for c in cs if dev(c)][:40]
             rest = sorted([c for c in cs if not dev(c)], key=flows, reverse=True)
             cs = devs + rest[:120] + rng.sample(rest[120:], min(60, len(rest[120:])))
